@@ -37,6 +37,10 @@ WITNESSES = [
     b"package p\ntype I interface{ M(int) (string, error) }\n",        # unnamed params/results in an interface
     b"package p\nfunc F[T any, U comparable](x T, ys ...U) (r chan<- T, err error) { return }\n",
     b"package p\nvar x P[int, string]\nvar y = a[1:2:3]\nvar f = func(a int) int { return a }\n",
+    # tagged embedded fields: plain, qualified, pointer; in a declared struct, in a struct literal type inside a value, in a parameter
+    b"package p\n\nimport \"sync\"\n\ntype A struct {\n\tBase `bson:\",inline\"`\n\tsync.Mutex `json:\"-\"`\n\t*Base2 `yaml:\",inline\"`\n\t*pkg.T \"raw\"\n\tX int `json:\"x\"`\n}\n\n"
+    b"var v = struct {\n\tBase `k:\"v\"`\n\t*sync.Mutex `m:\"n\"`\n}{}\n\nvar w = []struct{ pkg.T `a:\"b\"` }{{}}\n\nfunc f(x struct{ Base `a:\"b\"` }) (r struct{ *Base `c:\"d\"` }) { return }\n\n"
+    b"type G[T any] struct {\n\tInner[T] `g:\"t\"`\n\t*sync.Map `json:\"-\"`\n}\n",
     b"package p\nvar a, b, c = 1, 2, 3\nconst x, y, z, w = 1, 2, 3, 4\nvar (\n\tm, n, o int = f(1), g[2], h.i\n)\n",
     b"package p\nimport (\n\t\"fmt\"\n\tx \"os\"\n)\nconst (\n\tA = iota\n\tB\n)\ntype T struct {\n\tA int `json:\"a\"`\n\tB, C []*T\n\tfmt.Stringer\n}\n",
 ]
@@ -61,17 +65,14 @@ def canon(t):
     return t.replace("[]", "~")
 
 
-def private_json(ctx, gens):
-    """The translator's JSON side copies, regenerated into this run's scratch directory
-    (build/gen is shared between concurrent runs, also with private worktrees)."""
-    import json
-    d = os.path.join(ctx.scratch, "genjson")
-    rc, out = ctx.run([os.path.join(vlib.BIN, "translator"), "-repo", vlib.REPO, "-out", os.path.join(ctx.scratch, "genv"),
-                       "-json", d] + list(gens), cwd=vlib.REPO, timeout=300)
-    if rc != 0:
-        ctx.broken("translator(%s)" % ",".join(gens), out[-800:])
-        return None, d
-    return {g: json.load(open(os.path.join(d, g + ".json"))) for g in gens}, d
+def gen_json(ctx, name, ok):
+    """JSON side copy of a generator (build/gen<PTAG>, private per worktree); None if the translator failed"""
+    if not ok:
+        return None
+    try:
+        return ctx.gen_json(name)
+    except Exception:
+        return None
 
 
 def run(ctx):
@@ -79,14 +80,11 @@ def run(ctx):
     ctx.prove("C37")
     model = ctx.model("c37")
     impl = ctx.harness("c37")
-    js, jdir = private_json(ctx, ["goaststructs"])
-    if js is None:
-        return
-    gostructs = os.path.join(jdir, "goaststructs.json")
+    gostructs = os.path.join(vlib.BUILD, "gen" + vlib.PTAG, "goaststructs.json")
 
     repo_files = go_files(vlib.REPO, skip_testdata=False)
     std = go_files(os.path.join(goroot(), "src"))
-    nstd = ctx.n(120, len(std))
+    nstd = ctx.n(80, len(std))
     if nstd < len(std):
         # seeded sample without replacement
         idx = list(range(len(std)))
@@ -99,7 +97,7 @@ def run(ctx):
     cases = ["src\t" + w.hex() for w in WITNESSES]
     cases += ["file\t" + p for p in repo_files]
     cases += ["file\t" + p for p in std_pick]
-    ngen = ctx.n(400, 20000)
+    ngen = ctx.n(300, 20000)
     cases += ["gen\t%d" % (ctx.rng.next() % (1 << 62)) for _ in range(ngen)]
 
     rc, out = ctx.run([impl, "-gostructs", gostructs, "run"], input="\n".join(cases) + "\n", timeout=900)
